@@ -7,6 +7,8 @@
 #include <stdint.h>
 #include <stdarg.h>
 #include <sys/types.h>
+#include <unistd.h>
+#include <obstack.h>
 #include "mpir.h"
 
 /* ---------------- recording allocator ---------------- */
@@ -191,3 +193,52 @@ int v_ferror (FILE *f) { return ferror (f); }
 int v_feof (FILE *f) { return feof (f); }
 long v_ftell_consumed (FILE *f, vstream *s) { return (long) s->pos; }
 int v_getc (FILE *f) { return getc (f); }
+
+
+/* ---------------- va_list entry points of the formatted I/O family (reached through thin variadic wrappers) ---------------- */
+#define obstack_chunk_alloc malloc
+#define obstack_chunk_free free
+int v_vsnprintf (char *buf, size_t size, const char *fmt, ...) { va_list ap; int r; va_start (ap, fmt); r = gmp_vsnprintf (buf, size, fmt, ap); va_end (ap); return r; }
+int v_vsprintf (char *buf, const char *fmt, ...) { va_list ap; int r; va_start (ap, fmt); r = gmp_vsprintf (buf, fmt, ap); va_end (ap); return r; }
+int v_vasprintf (char **pp, const char *fmt, ...) { va_list ap; int r; va_start (ap, fmt); r = gmp_vasprintf (pp, fmt, ap); va_end (ap); return r; }
+int v_vfprintf (FILE *fp, const char *fmt, ...) { va_list ap; int r; va_start (ap, fmt); r = gmp_vfprintf (fp, fmt, ap); va_end (ap); return r; }
+int v_vsscanf (const char *s, const char *fmt, ...) { va_list ap; int r; va_start (ap, fmt); r = gmp_vsscanf (s, fmt, ap); va_end (ap); return r; }
+int v_fscanf (FILE *fp, const char *fmt, ...) { va_list ap; int r; va_start (ap, fmt); r = gmp_vfscanf (fp, fmt, ap); va_end (ap); return r; }
+/* obstack: returns length, copies the grown object into out (at most cap bytes) */
+int v_obstack_printf (char *out, size_t cap, int use_v, const char *fmt, ...)
+{
+  struct obstack ob; va_list ap; int r; size_t n; char *base;
+  obstack_init (&ob);
+  obstack_grow (&ob, "pre:", 4);
+  va_start (ap, fmt);
+  r = gmp_obstack_vprintf (&ob, fmt, ap);
+  va_end (ap);
+  (void) use_v;
+  n = obstack_object_size (&ob);
+  base = obstack_finish (&ob);
+  if (n > cap) n = cap;
+  memcpy (out, base, n);
+  if (n < cap) out[n] = 0;
+  obstack_free (&ob, 0);
+  return r;
+}
+/* gmp_printf / gmp_vprintf write to stdout: run them with stdout redirected into a pipe-less temporary file */
+int v_printf_capture (char *out, size_t cap, const char *fmt, ...)
+{
+  va_list ap; int r, saved; FILE *tmp = tmpfile (); long n;
+  if (!tmp) return -2;
+  fflush (stdout);
+  saved = dup (1);
+  dup2 (fileno (tmp), 1);
+  va_start (ap, fmt);
+  r = gmp_vprintf (fmt, ap);
+  va_end (ap);
+  fflush (stdout);
+  dup2 (saved, 1); close (saved);
+  n = ftell (tmp); if (n < 0) n = 0;
+  rewind (tmp);
+  if ((size_t) n > cap - 1) n = cap - 1;
+  n = fread (out, 1, n, tmp); out[n] = 0;
+  fclose (tmp);
+  return r;
+}
